@@ -64,9 +64,11 @@ BinOps == {"*", "/", "%", "+", "-", "<<", ">>", "<", ">", "<=", ">=", "==", "!="
 AsgOps == {"=", "*=", "%=", "+=", "-=", "<<=", "&="}
 UnOps  == {"neg", "pos", "bnot", "lnot", "deref", "addr", "preinc", "postinc", "predec", "sizeof"}
 OpBin  == {"gi", "gd", "gp", "gq", "gv", "gs", "gfp", "k0", "gip", "gcp", "gld", "kpi", "kpc", "kv", "knil"}
-OpUn   == {"gi", "gc", "gvol", "gd", "gld", "gp", "gv", "gfp", "gs", "ga", "gf", "gsbf", "gsm", "k1", "ks", "lr", "li", "gb", "gsp", "gq", "gcbf"}
-OpLhs  == {"gi", "gc", "gvol", "gd", "gld", "gp", "gq", "gv", "gcp", "gs", "ga", "gf", "k1", "gsbf", "gb", "li", "gfp", "gcbf"}
-OpRhs  == {"gi", "gd", "gp", "gq", "gv", "gcp", "gs", "gt", "k0", "k1", "gf", "gld", "kv", "kpi"}
+OpUn   == {"gi", "gc", "gvol", "gd", "gld", "gp", "gv", "gfp", "gs", "ga", "gf", "gsbf", "gsm", "k1", "ks", "lr", "li", "gb", "gsp", "gq", "gcbf",
+           "gcsa1", "gcspa1", "gcspin", "gcspm2", "gta1", "gcap1", "gvsa1", "gssa1", "gsspa1"}
+OpLhs  == {"gi", "gc", "gvol", "gd", "gld", "gp", "gq", "gv", "gcp", "gs", "ga", "gf", "k1", "gsbf", "gb", "li", "gfp", "gcbf",
+           "gcsa1", "gcspa1", "gcspin", "gcspm2", "gta1", "gcap1", "gvsa1", "gssa1", "gsspa1", "gta"}
+OpRhs  == {"gi", "gd", "gp", "gq", "gv", "gcp", "gs", "gt", "k0", "k1", "gf", "gld", "kv", "kpi", "gcspa", "gcapd", "gta", "gsspa", "gcspin", "gcspm2", "gvsa1"}
 OpArg  == {"gi", "gd", "gp", "gq", "gs", "gt", "k0"}
 SInitTypes == {"int", "double", "bool", "ptr_int", "ptr_char", "ptr_void", "ptr_cint", "struct_S"}
 CastTypes  == {"int", "double", "ptr_int", "void", "struct_S", "bool"}
